@@ -288,10 +288,30 @@ UNIT = Unit(
                     ("C09-per-sec-finite-nonnegative", "self.status is InProgress && now_model().ns() > self.est.start_time.ns() ==> r.fin() && r.r() >= 0real"),
                     ("C09-per-sec-finished-is-average", "!(self.status is InProgress) ==> r.r() == self.pos.pos@ as real / gap(self.started, now_model())"),
                     ("C09-per-sec-finished-finite", "!(self.status is InProgress) && now_model().ns() > self.started.ns() ==> r.fin() && r.r() >= 0real")]),
+        Raw("""
+// the completed fraction as a function of position and length (from the statement of C07 / C13)
+spec fn frac_of(pos: u64, len: Option<u64>) -> real {
+    match len { None => 0real, Some(l) => if l == 0 { 1real } else if pos == 0 { 0real } else if pos >= l { 1real } else { pos as real / l as real } }
+}
+"""),
+        Lemma("fraction_monotone", "(p1: u64, p2: u64, len: Option<u64>)",
+              requires=[("order", "p1 <= p2")],
+              ensures=[("C07-C13-fraction-monotone-in-the-position", "frac_of(p1, len) <= frac_of(p2, len)"), ("range", "0real <= frac_of(p1, len) <= 1real")],
+              props=["C07", "C13"],
+              body="""{
+    if len is Some { let l = len.unwrap(); if l > 0 {
+        let q = l as real; let a = p1 as real; let b = p2 as real;
+        assert(a / q <= b / q) by (nonlinear_arith) requires a <= b, q > 0real;
+        assert(a / q >= 0real) by (nonlinear_arith) requires a >= 0real, q > 0real;
+        assert((a / q < 1real) == (a < q)) by (nonlinear_arith) requires q > 0real;
+        assert((b / q < 1real) == (b < q)) by (nonlinear_arith) requires q > 0real;
+    } }
+}"""),
         # the completed fraction over the reals (its f32 side: full-domain Kani harness of the thorough tier)
         Fn("src/state.rs", "ProgressState", "fraction", ret="r", sig_rewrites=[Rw("R6", r"\bf32\b", "F64")], props=["C07", "C13", "C11"],
            rewrites=[K.AORD(1), Rw("R6", r"(\w+) as f32", r"F64::from_u64(\1)", count="any"), RwFn("R6", r6_float_literals, count=None)],
-           ensures=[("C07-C13-fraction-in-unit-interval", "0real <= r.r() <= 1real"),
+           ensures=[("C07-C13-fraction-is-frac-of", "r.r() == frac_of(self.pos.pos@, self.len)"),
+                    ("C07-C13-fraction-in-unit-interval", "0real <= r.r() <= 1real"),
                     ("C07-C13-fraction-unknown-length-zero", "self.len is None ==> r.r() == 0real"),
                     ("C07-C13-fraction-zero-length-one", "self.len == Some(0u64) ==> r.r() == 1real"),
                     ("C07-C13-fraction-position-zero", "self.pos.pos@ == 0 && self.len != Some(0u64) ==> r.r() == 0real"),
